@@ -9,6 +9,9 @@ Reading rules (the trusted part of this translator, DESIGN §4.4):
 * `try: import … except ImportError:` is "either the imports or the handler" (imports raise nothing else);
 * `sys.path.remove(X)` outside such a guard may raise (the entry can be gone); `sys.meta_path.remove(hook)` is
   taken not to raise (scripts do not remove import hooks they did not install);
+* in a function that saves the working directory, `os.chdir(X)` acquires it (after the call, which may raise) and
+  `os.chdir(old_…)` puts it back (elsewhere `os.chdir` is an ordinary call: in `_parse_setup_py` it is the virtual one);
+  `with LOCK:` holds the lock for its body; `with open(…)` holds the file (the `open` itself may raise);
 * a release guarded by a test that says "if it is held" (`X in sys.path`, `tok is not None`) is read as the
   bare release (releasing what is not held is a no-op in the model);
 * `try/except` handlers may or may not match, except around a single call of a function listed in RAISES_ONLY with
@@ -25,7 +28,7 @@ NONRAISING = {
     "ArchiveMetaHook", "patch", "FakeModule", "FakeNumpyModule", "list", "hasattr", "isinstance", "getattr", "setattr",
     "LOG.debug", "LOG.info", "LOG.warning", "LOG.error", "begin_patch", "end_patch", "sys.modules.keys",
     "utils.normalize_project_name", "utils.parse_version", "os.path.isabs", "os.path.relpath", "re.split", "os.getcwd",
-    "'{}'.format", "format", "print",
+    "'{}'.format", "format", "print", "logging.getLogger",
 }
 
 
@@ -148,6 +151,12 @@ def _stmt(sk: Skel, s: ast.stmt, probe=False) -> str:
                 return "(.rel %d)" % sk.rid("tmpdir:" + ast.unparse(v.args[0]))
             if name == "sys.exit":
                 return ".raise"
+            if name == "os.chdir" and getattr(sk, "tracks_cwd", False):
+                # the process working directory: changed = held, put back to a saved `old_*` value = released
+                arg = v.args[0]
+                if isinstance(arg, ast.Name) and arg.id.startswith("old_"):
+                    return "(.rel %d)" % sk.rid("cwd")
+                return "(.seq .call (.acq %d))" % sk.rid("cwd")
         return ".call" if _may_raise(sk, v) else ".skip"
     if isinstance(s, (ast.Assign, ast.AnnAssign)):
         targets = s.targets if isinstance(s, ast.Assign) else [s.target]
@@ -235,6 +244,12 @@ def _stmt(sk: Skel, s: ast.stmt, probe=False) -> str:
         if isinstance(item, ast.Call) and _callee(item) == "closing":
             r = sk.rid("open:" + ast.unparse(item.args[0]))
             return "(PT.withRes [%d] %s)" % (r, _block(sk, s.body, probe))
+        if isinstance(item, ast.Call) and _callee(item) == "open":
+            r = sk.rid("open:" + ast.unparse(item.args[0]))
+            return "(.seq .call (PT.withRes [%d] %s))" % (r, _block(sk, s.body, probe))
+        if isinstance(item, ast.Name) and item.id.isupper() and "LOCK" in item.id:
+            r = sk.rid("lock:" + item.id)
+            return "(PT.withRes [%d] %s)" % (r, _block(sk, s.body, probe))
         raise Untranslatable("with %s" % ast.unparse(item)[:40])
     if isinstance(s, ast.Try):
         import_try = any("ImportError" in ast.unparse(h.type) for h in s.handlers if h.type is not None)
@@ -280,6 +295,11 @@ def function_skeleton(path: str, fname: str, consts=None, once=(), preheld=()):
             fn = n
             break
     sk = Skel()
+    # the working directory is tracked in functions that save it (`old_cwd = os.getcwd()` ... `os.chdir(old_cwd)`); elsewhere
+    # `os.chdir` is an ordinary call (in `_parse_setup_py` it is the *virtual* chdir substituted by the caller)
+    sk.tracks_cwd = fn is not None and any(
+        isinstance(c, ast.Call) and _callee(c) == "os.chdir" and c.args and isinstance(c.args[0], ast.Name) and c.args[0].id.startswith("old_")
+        for c in ast.walk(fn))
     sk.consts = dict(consts or {})
     sk.once = set(once)
     if fn is None:
